@@ -7,6 +7,10 @@ CHECKS = {
          "trusted: go/ssa, z3 4.8.12 (+z3 5.1.0/cvc5 fallback), gosym encoder, reflect typed-cell model; operands already of the same type (toSameFuncType executed on same-typed operands); typed constants finite and not -0; frame invariant FileEnv = Outer^(Depth-1); complex division uninterpreted; strings <= 3 bytes", "DESIGN.md §5 C01"),
  "C02": ("every statement closure returned by the real Comp.setVar / Comp.setPlace (and the var*/place* families they dispatch to: =, +=, -=, *=, /=, %=, &=, |=, ^=, &^=; power-of-two strength reductions) is executed symbolically per (operator, kind, storage class Ints/Vals resp. pointer/map place, constant or expression right-hand side, closure depth 0..5 with the file-frame shortcut) on a chain of symbolic frames and proved to store old OP y with Go wrap-around / IEEE semantics for all values, to leave every other slot, frame, cell and map entry unchanged, to advance IP by one and return the next statement, to evaluate place, key and right-hand side exactly once in Go's order, to panic exactly when Go panics (integer division by zero, nil map) and to be rejected at compile time exactly for integer division by constant zero.",
          "trusted: go/ssa, z3 4.8.12 (+z3 5.1.0/cvc5 fallback), gosym encoder, reflect typed-cell and map model; narrowing rewrites proved by `gosym lemmas` (division narrowing from 8-bit operands only), float32 double rounding for a single + - * / (Figueroa) trusted; bounds: 3 slots per frame, depth <= 5, maps with <= 2 entries; complex division uninterpreted; shifts on places (<<= >>=) are not implemented by gomacro and not claimed; multi-assignment and IncDec not yet covered", "DESIGN.md §5 C02"),
+ "C14": ("the real BindClass.MakeDescriptor / BindDescriptor.Index / Class (class and index round-trip for every index in [-1, 2^59)), Comp.NewBind + CompBinds.NewBind (fresh and redefined names, 7 kinds, arbitrary counters satisfying the slot invariant IntBindMax != 0 => IntBindNum <= IntBindMax) and Interp.prepareEnv (arbitrary small global frame, arbitrary growth deltas) are executed symbolically as single inductive steps: slot allocation (2 slots for complex128), frozen capacity honoured, slot invariant preserved, existing slots keep their values, new slots are zero, the slot array is never reallocated once an address escaped, pending signals cleared; plus the two-evaluation history 'address taken, then one more declaration, then growth'.",
+         "bounds: prepareEnv on frames with <= 3 integer slots / cap <= 3, <= 1 boxed slot, counters <= 6/3, deltas in [-1,8] (the production deltas 16/1024 are call arguments); counters < 2^40 in the NewBind steps; trusted: go/ssa, z3, encoder, map model; known finding listed in known_findings.json (capacity frozen one evaluation late); the evaluation pipeline itself (that each evaluation calls prepareEnv before running, that address-taking sets IntAddressTaken) is covered by C06/C01 obligations or outside the claim", "DESIGN.md §5 C14"),
+ "C19": ("the real singleStep, Interp.debug and Run.applyDebugOp (package fast) and Debugger.cmdStep / cmdNext / cmdFinish / cmdContinue and Cmds.Lookup (package fast/debug) are executed symbolically with symbolic call depths in [0, 2^61): after step the debugger is consulted before the next statement at any depth, after next exactly at depths <= the current one, after finish exactly at depths < the current one, after continue never; a non-positive stop depth is normalised to continue; exactly one statement runs per single step and control returns to the executor while the debug signal is set; an op carrying a panic value terminates execution with it.",
+         "the debugger is a counting stub returning an arbitrary op; trusted: go/ssa, z3, encoder; transparency of results under the debugger (first sentence of the property) and breakpoints in whole programs are outside the claim", "DESIGN.md §5 C19"),
  "C34": ("the real Universe.addBasicTypeMethodsCTI is executed symbolically for each of the 217 (basic kind, contract method) pairs; the installed func value's signature is checked and its result proved equal to the Go operator/builtin for all operand values, including panic equivalence for integer division and string indexing/slicing.",
          "trusted: go/ssa, z3, encoder, reflect typed-cell model; method-table accessors of xtype (NumMethod/Method/GetMethods) replaced by a one-method model; container-type methods (cti_method.go) outside the claim", "DESIGN.md §5 C34"),
  "C37": ("the real binarySearch, prefixSearch, removeCmd, Cmd.Match, Cmds.Add, Cmds.Del and Cmds.Lookup are executed symbolically on command names that are symbolic byte strings (bounded bit-vector strings) and compared with a linear-scan reference: exact name wins, unique prefix resolves, ambiguity lists exactly the candidates in order, no match is io.EOF; Add/Del are checked as one inductive step from an arbitrary sorted duplicate-free bucket (invariant preserved, other commands still resolve) and as short histories through the public API.",
